@@ -269,6 +269,43 @@ func soleDefinition(info *types.Info, fd *ast.FuncDecl, v *types.Var) ast.Expr {
 	if n == 1 && declares {
 		return def
 	}
+	// defined by a spliced-in helper (`v := helper(…)` became a frame, or the call was hoisted into a synthetic
+	// local): when the helper has a single `return <expr>`, that expression (written in the helper: its parameters
+	// stand for the arguments, see frameArgRoot / statusPartsIn)
+	if n == 0 {
+		var ret ast.Expr
+		nfr, nret := 0, 0
+		for _, fr := range framesIn(fd) {
+			if fr.Tok != token.DEFINE || len(fr.Lhs) != 1 {
+				continue
+			}
+			if id, ok := fr.Lhs[0].(*ast.Ident); !ok || info.ObjectOf(id) != v {
+				continue
+			}
+			nfr++
+			ast.Inspect(fr.Block, func(m ast.Node) bool {
+				switch x := m.(type) {
+				case *ast.FuncLit:
+					return false
+				case *ast.BlockStmt:
+					if x != fr.Block && inlineFrames[x] != nil {
+						return false
+					}
+				case *ast.ReturnStmt:
+					nret++
+					if len(x.Results) == 1 {
+						ret = x.Results[0]
+					} else {
+						ret = nil
+					}
+				}
+				return true
+			})
+		}
+		if nfr == 1 && nret == 1 {
+			return ret
+		}
+	}
 	return nil
 }
 
